@@ -780,3 +780,4 @@ EXPLANATION += (' Location-independent additions: DEC/silent-pitch-start, DEC/of
 EXPLANATION += (' Round 6: ' + 'SKIP/ignored-notes-cannot-raise: a raise that depends on a note is unreachable for pitch = min_pitch - 1 / max_pitch + 1, and an aggregate over the notes that feeds a raise filters on the pitch range.')
 EXPLANATION += (' Round 7: ' + "DEC/start-frame-zero-is-a-frame; WINDOW/onset-length-clamp; DEC/silent-pitch-start recognises a sentinel representation of 'not sounding'.")
 EXPLANATION += (' Rounds 9-10: ' + 'SKIP/column-in-range (pitch 20 / 109 against the guards of every column store); FRAME/scenarios (frames_from_times evaluated on eight cases).')
+EXPLANATION += (' Round 11: ' + 'DEC/one-column-index; VELO/rows-are-the-active-rows.')
